@@ -41,6 +41,9 @@ type RWMutex struct {
 	w     bool
 	r     int
 	wwait int
+	// who holds it (ids of managed goroutines), for naming the goroutines on a wait-for cycle
+	wh int
+	rh []int
 }
 
 // Mutex has the method set of sync.Mutex.
@@ -91,6 +94,12 @@ func (m *RWMutex) RUnlock() {
 	m.r--
 	if active {
 		g := cur
+		for i := len(m.rh) - 1; i >= 0; i-- {
+			if m.rh[i] == g.id || i == 0 {
+				m.rh = append(m.rh[:i], m.rh[i+1:]...)
+				break
+			}
+		}
 		g.want = wantPoint
 		Points["RUnlock"]++
 		park(g)
@@ -134,6 +143,7 @@ type Result struct {
 	Choices  []Choice
 	Deadlock bool
 	Blocked  []string // description of the blocked goroutines at a deadlock
+	Cycle    []int    // the blocked goroutines that wait, directly or through others, for a lock they themselves keep another from releasing
 	Panics   []string
 }
 
@@ -183,6 +193,45 @@ func Run(n int, body func(id int), choose func(step int, enabled []int, cur int)
 					res.Blocked = append(res.Blocked, fmt.Sprintf("g%d waits for %s", g.id, map[want]string{wantLock: "Lock", wantRLock: "RLock"}[g.want]))
 				}
 			}
+			// the wait-for graph: a goroutine waits for the holders of the lock it wants (a reader
+			// stopped by a queued writer waits for that writer)
+			edges := map[int][]int{}
+			for _, g := range gs {
+				if g.done || g.m == nil {
+					continue
+				}
+				switch {
+				case g.want == wantLock:
+					if g.m.w {
+						edges[g.id] = append(edges[g.id], g.m.wh)
+					}
+					edges[g.id] = append(edges[g.id], g.m.rh...)
+				case g.want == wantRLock && g.m.w:
+					edges[g.id] = append(edges[g.id], g.m.wh)
+				case g.want == wantRLock:
+					for _, h := range gs {
+						if !h.done && h.want == wantLock && h.m == g.m {
+							edges[g.id] = append(edges[g.id], h.id)
+						}
+					}
+				}
+			}
+			for _, g := range gs {
+				seen := map[int]bool{}
+				stack := append([]int(nil), edges[g.id]...)
+				for len(stack) > 0 {
+					x := stack[len(stack)-1]
+					stack = stack[:len(stack)-1]
+					if x == g.id {
+						res.Cycle = append(res.Cycle, g.id)
+						break
+					}
+					if !seen[x] {
+						seen[x] = true
+						stack = append(stack, edges[x]...)
+					}
+				}
+			}
 			break
 		}
 		pick := choose(step, en, last)
@@ -201,8 +250,10 @@ func Run(n int, body func(id int), choose func(step int, enabled []int, cur int)
 		case wantLock:
 			g.m.w = true
 			g.m.wwait--
+			g.m.wh = g.id
 		case wantRLock:
 			g.m.r++
+			g.m.rh = append(g.m.rh, g.id)
 		}
 		g.want = wantNothing
 		cur = g
